@@ -223,3 +223,37 @@ class Timer:
 
     def __call__(self):
         return time.monotonic() - self.t0
+
+
+class Held:
+    """Results handed out by the code under test, kept *by reference* together with a private copy: a later
+    evaluation on the same object must not rewrite what an earlier one returned (no aliasing of internal buffers)."""
+
+    def __init__(self):
+        self.items = []
+
+    @staticmethod
+    def _snap(obj):
+        if isinstance(obj, (tuple, list)):
+            return [Held._snap(o) for o in obj]
+        if isinstance(obj, np.ndarray):
+            return obj.copy()
+        return obj
+
+    @staticmethod
+    def _same(a, b):
+        if isinstance(b, list):
+            return len(a) == len(b) and all(Held._same(x, y) for x, y in zip(a, b))
+        if isinstance(b, np.ndarray):
+            return isinstance(a, np.ndarray) and a.shape == b.shape and bool(np.array_equal(a, b, equal_nan=True))
+        return True
+
+    def keep(self, label, obj):
+        self.items.append((label, obj, self._snap(obj)))
+        return obj
+
+    def verify(self, rec, ctx=None, monitor="earlier_results_not_overwritten"):
+        for label, obj, was in self.items:
+            same = self._same(obj, was)
+            rec.check(monitor, same, None if same else dict(ctx or {}, result=label, was=was,
+                                                            now=self._snap(obj)))
